@@ -247,6 +247,103 @@ pub fn exec(func: &str, a: &mut Args) -> String {
             let vs: VoxelSet = vol.into();
             format!("{} {} {} {} {} {}", ni, nj, nk, d3::fp(&vs.origin), ff(scale), g)
         }
+        // acd2 / hulls2 <maxhulls> <res> <fill2> <concavity> <plane_ds> <hull_ds> <np> pts <ne> edges: the real 2-D VHACD
+        // (parry2d-f64) on the real 2-D voxelization.
+        //   acd2   → origin scale n (i j s)* ndec (0 | 1 a b d)* ;; nparts (n (i j s)*)*     (decisions recorded by verif_tap)
+        //   hulls2 → origin scale nparts (n (i j s)*)* nhulls (m pts)*                        (compute_convex_hulls(1))
+        "acd2" | "hulls2" => {
+            use crate::p2::transformation::vhacd::{VHACDParameters as Par2, VHACD as Vh2, verif_tap as tap2};
+            use crate::p2::transformation::voxelization::VoxelSet as VS2;
+            let maxh = a.u() as u32; let res = a.u() as u32; let fm = a.u(); let conc = a.f();
+            let pds = a.u() as u32; let hds = a.u() as u32;
+            let np = a.u(); let pts: Vec<_> = (0..np).map(|_| d2::p(a)).collect();
+            let ne = a.u(); let idx: Vec<[u32; 2]> = (0..ne).map(|_| [a.u() as u32, a.u() as u32]).collect();
+            let vox = VS2::voxelize(&pts, &idx, res, fill2(fm), false);
+            let mut params = Par2::default();
+            params.max_convex_hulls = maxh; params.resolution = res; params.fill_mode = fill2(fm); params.concavity = conc;
+            params.plane_downsampling = pds; params.convex_hull_downsampling = hds;
+            let fv2 = |v: &VS2| { let mut s = format!("{}", v.voxels().len());
+                for x in v.voxels() { s.push_str(&format!(" {} {} {}", x.coords.x, x.coords.y, b(x.is_on_surface))); } s };
+            let pre = format!("{} {} {}", d2::fp(&vox.origin), ff(vox.scale), fv2(&vox));
+            let _ = tap2::take();
+            let vh = Vh2::from_voxels(&params, vox);
+            let dec = tap2::take();
+            let mut ps = format!("{}", vh.voxel_parts().len());
+            for p in vh.voxel_parts() { ps.push(' '); ps.push_str(&fv2(p)); }
+            if func == "acd2" {
+                let mut ds = format!("{}", dec.len());
+                for d in &dec { match d { None => ds.push_str(" 0"), Some((abc, dd)) => ds.push_str(&format!(" 1 {} {}", d2::fv(abc), ff(*dd))) } }
+                format!("{} {} ;; {}", pre, ds, ps)
+            } else {
+                let (o, sc) = vh.voxel_parts().get(0).map(|p| (p.origin, p.scale)).unwrap_or((d2::Point::origin(), 1.0));
+                let hulls = vh.compute_convex_hulls(1);
+                let mut s = format!("{} {} {} {}", d2::fp(&o), ff(sc), ps, hulls.len());
+                for h in &hulls { s.push_str(&format!(" {}", h.len())); for p in h { s.push(' '); s.push_str(&d2::fp(p)); } }
+                s
+            }
+        }
+        // vox3map <res> <fm> <mesh> → VoxelSet::voxelize(.., keep_voxel_to_primitives_map = true):
+        //   origin scale n (i j k s)* map (len prim*)*   one list per surface voxel, in voxel order | .. nomap
+        "vox3map" => {
+            let res = a.u() as u32; let fm = a.u();
+            let (pts, idx) = mesh(a);
+            let vs = VoxelSet::voxelize(&pts, &idx, res, fill(fm), true);
+            let mut s = fvox(&vs);
+            // The voxel-to-primitive map is private; it is read back through the public `compute_primitive_intersections`,
+            // one grid layer k at a time, with query-time primitives that are huge horizontal triangles at a
+            // primitive-specific height inside the layer: each (voxel, primitive) entry of the map then yields the clipped
+            // square (two triangles) whose xy-position names the voxel and whose height names the primitive.
+            let nprim = idx.len().max(1);
+            {   // `assert!(!self.intersections.is_empty(), ..)`: an empty map is reported as `nomap`
+                let far = vec![P3::new(1.0e9, 1.0e9, 1.0e9), P3::new(1.0e9 + 1.0, 1.0e9, 1.0e9), P3::new(1.0e9, 1.0e9 + 1.0, 1.0e9)];
+                let qi: Vec<[u32; 3]> = vec![[0, 1, 2]; nprim];
+                match std::panic::catch_unwind(std::panic::AssertUnwindSafe(|| vs.compute_primitive_intersections(&far, &qi))) {
+                    Ok(_) => {}
+                    Err(e) => {
+                        let msg = if let Some(m) = e.downcast_ref::<&str>() { m.to_string() } else if let Some(m) = e.downcast_ref::<String>() { m.clone() } else { String::new() };
+                        if msg.contains("voxel-to-primitives-map") { s.push_str(" nomap"); return s; }
+                        panic!("{}", msg);
+                    }
+                }
+            }
+            let sc = vs.scale; let o = vs.origin;
+            let (mut ni, mut nj, mut nk) = (0u32, 0u32, 0u32);
+            for x in vs.voxels() { ni = ni.max(x.coords.x + 1); nj = nj.max(x.coords.y + 1); nk = nk.max(x.coords.z + 1); }
+            let big = (ni.max(nj) as f64 + 2.0) * sc;
+            let mut map: std::collections::HashMap<(u32, u32, u32), Vec<usize>> = std::collections::HashMap::new();
+            for k in 0..nk {
+                let mut qpts = Vec::with_capacity(3 * nprim); let mut qidx = Vec::with_capacity(nprim);
+                for p in 0..nprim {
+                    let z = o.z + (k as f64 + (-0.45 + 0.9 * (p as f64 + 0.5) / nprim as f64)) * sc;
+                    qpts.push(P3::new(o.x - 4.0 * big, o.y - 4.0 * big, z));
+                    qpts.push(P3::new(o.x + 8.0 * big, o.y - 4.0 * big, z));
+                    qpts.push(P3::new(o.x - 4.0 * big, o.y + 8.0 * big, z));
+                    qidx.push([3 * p as u32, 3 * p as u32 + 1, 3 * p as u32 + 2]);
+                }
+                let out = vs.compute_primitive_intersections(&qpts, &qidx);
+                let mut keys: Vec<(u32, u32, usize)> = Vec::new();
+                for t in out.chunks(3) {
+                    let cx = (t[0].x + t[1].x + t[2].x) / 3.0; let cy = (t[0].y + t[1].y + t[2].y) / 3.0;
+                    let i = ((cx - o.x) / sc).round() as u32; let j = ((cy - o.y) / sc).round() as u32;
+                    let tz = (t[0].z - o.z) / sc - k as f64;
+                    let p = ((tz + 0.45) / 0.9 * nprim as f64 - 0.5).round() as usize;
+                    keys.push((i, j, p));
+                }
+                // every entry is a clipped square = a fan of two triangles
+                if keys.len() % 2 != 0 { return format!("{} decode-error odd-number-of-triangles", s); }
+                for pr in keys.chunks(2) {
+                    if pr[0] != pr[1] { return format!("{} decode-error fan-mismatch", s); }
+                    map.entry((pr[0].0, pr[0].1, k)).or_default().push(pr[0].2);
+                }
+            }
+            s.push_str(" map");
+            for x in vs.voxels() { if x.is_on_surface {
+                let l = map.get(&(x.coords.x, x.coords.y, x.coords.z)).cloned().unwrap_or_default();
+                s.push_str(&format!(" {}", l.len()));
+                for p in l { s.push_str(&format!(" {}", p)); }
+            } }
+            s
+        }
         // voxelize2 <res> <fill> <npts> pts <nedges> edges → origin scale n (i j s)*
         "voxelize2" => {
             use crate::p2::transformation::voxelization::{FillMode as FM2, VoxelSet as VS2};
@@ -747,5 +844,101 @@ pub fn gen(r: &mut Rng, thorough: bool) -> Vec<(String, String)> {
         v.push(("vox2grid".into(), args.clone()));
         v.push(("vox2set".into(), args));
     }
+    // ---- 3-D voxel-to-primitive map (ModelMap3.lean): VoxelSet::voxelize(.., keep_voxel_to_primitives_map = true) ----
+    let nm3 = if thorough { 360 } else { 36 };
+    let mut famm: std::collections::BTreeMap<String, usize> = std::collections::BTreeMap::new();
+    for it in 0..nm3 {
+        let lat = it % 2 == 0;
+        let (name, res, m) = match it % 6 {
+            0 => { let (m, _) = gen_mesh(r, lat); ("mesh", *r.pick(&[4u32, 6, 8]), m) }
+            1 => { let (m, _) = gen_tie_mesh(r, lat, (it / 6) % 4, (it / 24) % 3, 8); ("tie", *r.pick(&[4u32, 5, 8]), m) }
+            2 => { let (_, res, m) = gen_fill3(r, lat, it + it / 6); ("fill3", res.min(if thorough { 10 } else { 8 }), m) }
+            3 => ("fan", *r.pick(if thorough { &[4u32, 5, 8, 12][..] } else { &[4u32, 5, 8][..] }), gen_fan3(r, lat)),
+            _ => ("soup", *r.pick(if thorough { &[4u32, 5, 8, 12, 16][..] } else { &[4u32, 5, 6, 8][..] }), gen_soup3(r, lat)),
+        };
+        let fm = [1, 0, 2, 1][(it / 6) % 4];
+        *famm.entry(format!("{}/fm{}", name, fm)).or_default() += 1;
+        v.push(("vox3map".into(), format!("{} {} {}", res, fm, hmesh(&m))));
+    }
+    if std::env::var("VERIF_FAMILIES").is_ok() { eprintln!("C18 vox3map families: {:?}", famm); }
+    // ---- 2-D VHACD (parry2d-f64): decomposition replay + hulls of the parts ----
+    let na2 = if thorough { 480 } else { 96 };
+    for it in 0..na2 {
+        let lat = it % 2 == 0;
+        // every 4th case: a thick shape that needs crossing cuts (star / oblique cross), at the extreme sizes of the domain
+        // (voxel size >> 1 and << 1 world unit), flood-filled, with enough hulls allowed for two levels of cuts at least
+        let thick = it % 4 == 3;
+        let poly = if thick { gen_thick_poly2(r, lat) } else if it % 3 == 2 { gen_tie_poly2(r, lat) } else { gen_poly2(r, lat) };
+        let n = poly.len();
+        let res = if thick { *r.pick(&[16u32, 21, 32]) } else { *r.pick(if thorough { &[8u32, 16, 21, 32, 50, 64][..] } else { &[8u32, 16, 21, 32][..] }) };
+        let fm = if thick { 1 } else { [1, 1, 0, 3, 1, 2][(it / 2) % 6] };
+        let maxh = if thick { *r.pick(&[4u32, 6, 8, 16]) } else { *r.pick(&[1u32, 2, 3, 4, 5, 6, 8, 16]) };
+        let conc = if thick { *r.pick(&[0.0005, 0.005]) } else { *r.pick(&[0.0005, 0.005, 0.05, 0.2]) };
+        let pds = *r.pick(&[1u32, 2, 4]); let hds = *r.pick(&[1u32, 2, 4]);
+        let args = format!("{} {} {} {} {} {} {} {} {} {}", maxh, res, fm, hx(conc), pds, hds, n, poly.iter().map(d2::hp).collect::<Vec<_>>().join(" "), n,
+            (0..n).map(|i| format!("{} {}", i, (i + 1) % n)).collect::<Vec<_>>().join(" "));
+        v.push(("acd2".into(), args.clone()));
+        if it % 2 == 0 || thick { v.push(("hulls2".into(), args)); }
+    }
     v
+}
+
+/// triangle soups for the voxel-to-primitive map: shared vertices, triangles listed twice or with another winding,
+/// degenerate triangles (repeated indices, collinear points), unused points; lattice = coordinates on a coarse grid so that
+/// faces and edges lie on planes between voxel layers
+fn gen_soup3(r: &mut Rng, lat: bool) -> (Vec<P3>, Vec<[u32; 3]>) {
+    let n = 4 + r.below(7) as usize;
+    let mut p: Vec<P3> = (0..n).map(|_| if lat { P3::new(r.range(0, 6) as f64 * 0.5, r.range(0, 6) as f64 * 0.5, r.range(0, 6) as f64 * 0.5) }
+        else { P3::new(r.uniform(-3.0, 3.0), r.uniform(-3.0, 3.0), r.uniform(-3.0, 3.0)) }).collect();
+    // make sure the cloud is not flat (a positive extent on every axis)
+    p.push(P3::new(p[0].x + 1.0, p[0].y + 1.5, p[0].z + 2.0));
+    let n = p.len() as u64;
+    let m = 2 + r.below(9) as usize;
+    let mut t: Vec<[u32; 3]> = Vec::new();
+    for _ in 0..m {
+        match r.below(8) {
+            0 if !t.is_empty() => { let x = *r.pick(&t); t.push(x); }                          // listed twice
+            1 if !t.is_empty() => { let x = *r.pick(&t); t.push([x[0], x[2], x[1]]); }         // other winding
+            2 => { let a = r.below(n) as u32; let b = r.below(n) as u32; t.push([a, b, a]); }   // degenerate: a segment
+            3 => { let a = r.below(n) as u32; t.push([a, a, a]); }                               // degenerate: a point
+            _ => t.push([r.below(n) as u32, r.below(n) as u32, r.below(n) as u32]),
+        }
+    }
+    (p, t)
+}
+
+/// thick closed polygons whose decomposition needs cuts that cross inside the shape: stars with a thick core and crosses
+/// ("+") turned by an oblique angle; the largest extent is one of the extreme sizes of the domain D (0.02 .. 100 world units),
+/// so that the voxel size is far from 1 in both directions; position anywhere within 1e3
+fn gen_thick_poly2(r: &mut Rng, lat: bool) -> Vec<d2::Point<f64>> {
+    let raw: Vec<(f64, f64)> = if r.bool() {
+        let n = 4 + r.below(5) as usize; let inner = r.uniform(0.4, 0.6);
+        (0..2 * n).map(|k| { let a = std::f64::consts::PI * k as f64 / n as f64; let rad = if k % 2 == 0 { 1.0 } else { inner }; (rad * a.cos(), rad * a.sin()) }).collect()
+    } else {
+        let w = r.uniform(0.2, 0.45);
+        vec![(w, w), (1.0, w), (1.0, -w), (w, -w), (w, -1.0), (-w, -1.0), (-w, -w), (-1.0, -w), (-1.0, w), (-w, w), (-w, 1.0), (w, 1.0)].into_iter().rev().collect()
+    };
+    let (c, s) = if lat { *r.pick(&[(0.6, 0.8), (0.8, 0.6), (0.28, 0.96), (1.0, 0.0)]) } else { let a = r.uniform(0.0, 6.28); (a.cos(), a.sin()) };
+    let half = 0.5 * *r.pick(&[0.02, 0.05, 1.0, 40.0, 70.0, 100.0]);
+    let (tx, ty) = if lat { (r.range(-500, 500) as f64, r.range(-500, 500) as f64) } else { (r.uniform(-900.0, 900.0), r.uniform(-900.0, 900.0)) };
+    raw.iter().map(|(x, y)| d2::Point::new((c * x - s * y) * half + tx, (s * x + c * y) * half + ty)).collect()
+}
+
+/// many triangles through one voxel: a fan of 5..16 triangles around a common apex (each voxel near the apex is met by
+/// all of them, voxels farther out by one or two), optionally closed by a base polygon
+fn gen_fan3(r: &mut Rng, lat: bool) -> (Vec<P3>, Vec<[u32; 3]>) {
+    let n = 5 + r.below(12) as usize;
+    let (h, rad) = if lat { (*r.pick(&[1.0, 2.0, 3.5]), *r.pick(&[1.0, 2.0, 4.0])) } else { (r.uniform(0.3, 4.0), r.uniform(0.5, 4.0)) };
+    let axis = r.below(3);
+    let place = |x: f64, y: f64, z: f64| match axis { 0 => P3::new(z, x, y), 1 => P3::new(y, z, x), _ => P3::new(x, y, z) };
+    let mut p = vec![place(0.0, 0.0, h)];
+    for i in 0..n {
+        let (c, s) = if lat { let q = [(1.0, 0.0), (1.0, 1.0), (0.0, 1.0), (-1.0, 1.0), (-1.0, 0.0), (-1.0, -1.0), (0.0, -1.0), (1.0, -1.0)][(i * 8 / n) % 8];
+                              let w = 1.0 + (i % 2) as f64 * 0.5; (q.0 * w, q.1 * w) }
+            else { let a = 2.0 * std::f64::consts::PI * i as f64 / n as f64; (a.cos(), a.sin()) };
+        p.push(place(rad * c, rad * s, 0.0));
+    }
+    let mut t: Vec<[u32; 3]> = (0..n as u32).map(|i| [0, 1 + i, 1 + (i + 1) % n as u32]).collect();
+    if r.bool() { for i in 1..n as u32 - 1 { t.push([1, 1 + i + 1, 1 + i]); } }
+    (p, t)
 }
